@@ -342,6 +342,34 @@ def run(ctx, rep):
             good = good and dep
         oke = good
     rep.check("C11.e", "cursor", oke, where=PN.loc(), what="the parent cursor is advanced only while the parent's name sorts before the current name (Ordering::Less)")
+    # ---- C11.h -------------------------------------------------------------------------------------
+    # entering a directory replaces the lookup level on EVERY path: a directory that no parent contains gets an empty level
+    # (otherwise its entries are matched against same-named siblings of the enclosing directory)
+    rep.rule("C11.h", "Parent::set_dir installs the sub-level (possibly empty) on every path")
+    SD = prog.find1(r"^rustic_core::archiver::parent::Parent::set_dir$")
+    writes = set()
+    for bi, blk in enumerate(SD.blocks):
+        for s_ in blk["s"]:
+            if s_[0] == "=" and place_has_field(s_[1], "trees", "parent::Parent") and isinstance(s_[1][-1], list) and s_[1][-1][0] == "f" and s_[1][-1][2] == "trees":
+                writes.add(bi)
+        t = blk["t"]
+        if t.get("k") == "call" and "callee" in t and re.search(r"mem::(replace|take|swap)$|Vec::<T, A>::clear$|Vec::<T, A>::truncate$", callee(t)) and t["args"] and op_place(t["args"][0]):
+            pp = flow.place_path(SD, op_place(t["args"][0]))
+            hit = pp is not None and pp[1] and pp[1][-1] == "trees"
+            if not hit:
+                for d_ in SD.defs().get(op_local(t["args"][0]), []):
+                    if d_[0] == "stmt" and d_[4][0] in ("refmut",) and place_has_field(d_[4][1], "trees", "parent::Parent"):
+                        hit = True
+            if hit:
+                writes.add(bi)
+    rep.require("C11.h", "set_dir/installs-level", len(writes) >= 1, where=SD.loc(), what="Parent::set_dir replaces self.trees with the sub-level")
+    rets = [bi for bi, blk in enumerate(SD.blocks) if blk["t"].get("k") == "return"]
+    reach = SD.reachable_from(0, cut_blocks=writes)
+    leak = [r for r in rets if r in reach and r not in writes]
+    rep.check("C11.h", "set_dir/every-path", bool(writes) and not leak, where=SD.loc(), what="every path through Parent::set_dir replaces self.trees (a directory unknown to the parents gets an empty level)" if not leak else
+              "some path through Parent::set_dir returns without replacing self.trees: inside a directory that no parent contains, lookups still run against the enclosing directory's parent trees and a same-named sibling file of equal size/mtime donates its content")
+    pushes = [bb for bb, t in SD.calls() if "callee" in t and callee(t).endswith("Vec::<T, A>::push")]
+    rep.check("C11.h", "set_dir/level-saved", len(pushes) >= 1, where=SD.loc(), what="the enclosing level is saved on the stack (restored by finish_dir)")
 
 
 def _upvar_name(body, idx):
